@@ -237,6 +237,46 @@ fn run_ucase(c: &UCase, rep: &mut Report) {
     rep.case(&c.name, failed > 0);
 }
 
+/// INSERT … SELECT * over staging tables whose columns differ from the destination in nullability /
+/// DEFAULT in every combination, a NULL at every row position of the source: the statement either
+/// stores all its rows or changes nothing
+fn select_insert_nullability_family(rep: &mut Report) {
+    let dests = ["A INT", "A INT NOT NULL", "A INT DEFAULT 7 NOT NULL", "A INT DEFAULT 7"];
+    let srcs = ["A INT", "A INT NOT NULL", "A INT DEFAULT 3"];
+    for (di, dest) in dests.iter().enumerate() {
+        for (si, src) in srcs.iter().enumerate() {
+            for k in 1..=4usize {
+                for null_pos in (0..k).map(Some).chain(std::iter::once(None)) {
+                    if null_pos.is_some() && src.contains("NOT NULL") {
+                        continue;
+                    }
+                    for form in ["INSERT INTO D SELECT * FROM SRC", "INSERT INTO D SELECT * FROM SRC WHERE ID > 0", "INSERT INTO D (ID, A, B) SELECT ID, A, B FROM SRC"] {
+                        let mut db = Db::new();
+                        db.must(&format!("CREATE TABLE D (ID INT PRIMARY KEY, {}, B INT)", dest));
+                        db.must(&format!("CREATE TABLE SRC (ID INT PRIMARY KEY, {}, B INT)", src));
+                        db.must("INSERT INTO D VALUES (100, 1, 1)");
+                        let rows: Vec<String> = (0..k).map(|j| format!("({}, {}, {})", j + 1, if Some(j) == null_pos { "NULL".to_string() } else { (j + 10).to_string() }, j)).collect();
+                        db.must(&format!("INSERT INTO SRC VALUES {}", rows.join(", ")));
+                        let before = snapshot(&mut db);
+                        let n0 = db.scan("D").map(|r| r.len()).unwrap_or(0);
+                        let out = db.exec(form);
+                        let after = snapshot(&mut db);
+                        let n1 = db.scan("D").map(|r| r.len()).unwrap_or(0);
+                        rep.count(&format!("select_insert_dest{}_src{}", di, si));
+                        rep.count(if out.is_ok() { "select_insert_accepted" } else { "select_insert_rejected" });
+                        rep.case(&format!("select-insert D({}) SRC({}) k={} null={:?} {}", dest, src, k, null_pos, form), k >= 2);
+                        let bad_null = db.scan("D").unwrap_or_default().iter().any(|r| dest.contains("NOT NULL") && r[1] == vibesql_types::SqlValue::Null);
+                        if out.is_panic() || (out.is_err() && before != after) || (out.is_ok() && n1 != n0 + k) || bad_null {
+                            rep.fail(FailKind::Oracle, None, "INSERT … SELECT from a staging table with other nullability / DEFAULT: partially applied, rows missing, or NULL stored in a NOT NULL column",
+                                &format!("{}\n--- before ---\n{}--- after => {} ---\n{}", db.log.join(";\n"), before, out.brief(), after));
+                        }
+                    }
+                }
+            }
+        }
+    }
+}
+
 fn main() {
     let args = Args::parse("C11");
     engine::silence_panics();
@@ -244,6 +284,7 @@ fn main() {
     let mut model = args.model();
     let mut rng = Rng::new(args.seed);
     trigger_probes(&mut rep);
+    select_insert_nullability_family(&mut rep);
     for c in uidx_scenarios() {
         run_ucase(&c, &mut rep);
         rep.count("multi_unique_index_scenarios");
